@@ -1065,7 +1065,7 @@ pub fn splice(
             });
         }
         for a in &cl.attrs {
-            edits.push(Edit { start: fr.item_start, end: fr.item_start, text: format!("{a}\n    "), rule: "proof-attr" });
+            edits.push(Edit { start: fr.item_start, end: fr.item_start, text: format!("{a} // @attr of clauses.vspec\n    "), rule: "proof-attr" });
         }
         let mut c = String::from("\n");
         if !cl.requires.trim().is_empty() {
@@ -1165,11 +1165,25 @@ pub fn splice(
                 edits.push(Edit { start: b, end: b, text: format!("\n{}", indent(t, 8)), rule: "hint" });
                 continue;
             }
-            let hits: Vec<_> = scan
+            let (nth, needle) = match needle.strip_prefix('#').and_then(|r| r.split_once('#')) {
+                Some((k, n)) => (k.parse::<usize>().unwrap_or(0), n.to_string()),
+                None => (0, needle.clone()),
+            };
+            let needle = &needle;
+            let mut hits: Vec<_> = scan
                 .stmts
                 .iter()
                 .filter(|r| text[(*r).clone()].trim_start().starts_with(needle.as_str()))
                 .collect();
+            if nth > 0 {
+                // the k-th statement (source order) that starts with the needle
+                hits.sort_by_key(|r| r.start);
+                hits.dedup_by_key(|r| r.start);
+                if hits.len() < nth {
+                    return Err(Lost(format!("anchor lost: @hint #{nth} `{needle}` but only {} statements start with it", hits.len())));
+                }
+                hits = vec![hits[nth - 1]];
+            }
             if hits.len() != 1 {
                 return Err(Lost(format!(
                     "anchor lost: @hint needle `{needle}` matches {} statements (need exactly 1)",
